@@ -14,7 +14,7 @@ func TestC05(t *testing.T) {
 	vx.Check(t, vx.Prop[mcase]{
 		ID: "C05",
 		Rule: "2 chains (optionally asymmetric ids) with v1-unordered, v1-ordered, v2 and v2-alias links, twin packets on the sibling link and (v2) on a rogue client; " +
-			"honest prefix (4-6 sends, 1-2 receives, acks), then per trial a MsgRecvPacket valid at that moment gets 1-3 catalogue mutations (message fields, proof, proof height, environment) and is " +
+			"honest prefix (5-7 sends, 1-2 receives, acks), then per trial a MsgRecvPacket valid at that moment gets 1-3 catalogue mutations (message fields, proof, proof height, environment) and is " +
 			"submitted before the unmutated control; non-trivial = at least one model-forbidden mutated message whose control was accepted (or whose honest form was valid before an environment mutation); " +
 			"distinct by (link kind, mutation labels per trial)",
 		MinNTFrac: 0.6,
